@@ -9,6 +9,8 @@ from __future__ import annotations
 
 import gc
 import itertools
+import json
+import os
 import struct
 import threading
 import time
@@ -1124,9 +1126,60 @@ def run(ctx):
                 if time.time() - t_start > 600:
                     break
                 run_case(ctx, res, dict(kind="real", spec=spec, nthreads=3, nitems=4, size=3 * 1024 * 1024, round=r), batch)
+    runtime_probes(ctx, res)
     res.assumptions.append("the kernel pipe / TCP socket is a reliable FIFO byte stream; a single low-level write (BufferedWriter.write+flush, "
                            "sock.sendall) is not interrupted by Python code of the same thread")
     return res
+
+
+def runtime_probes(ctx, res):
+    """two things the byte-level model takes for granted about the process the frames are written in:
+    (1) a frame larger than the pipe buffer reaches the peer whole although signals with a Python-level handler keep
+        interrupting the write (short counts from write(2) must be completed);
+    (2) nothing but the receiver thread reads the descriptor the frames arrive on: the worker's fd 0 is not the frame pipe."""
+    import subprocess
+    import sys
+
+    env = dict(os.environ, PYTHONPATH=os.path.join(common.REPO, "src"), PYTHONDONTWRITEBYTECODE="1")
+    case = dict(kind="runtime", probe="signals-during-large-writes", items=4, size=2 << 20)
+    res.count(("runtime", "signals"))
+    try:
+        p = subprocess.run([sys.executable, os.path.join(os.path.dirname(os.path.abspath(__file__)), "c08_sigchild.py"), "4", str(2 << 20)],
+                           env=env, capture_output=True, text=True, timeout=120)
+        line = (p.stdout.strip().splitlines() or ["{}"])[-1]
+        out = json.loads(line) if line.startswith("{") else {"ok": False, "problems": ["child printed %r, stderr %s" % (p.stdout[-200:], p.stderr[-300:])]}
+    except subprocess.TimeoutExpired:
+        out = {"ok": False, "problems": ["sending 4 x 2 MiB under a 2 ms interval timer did not finish within 120 s"]}
+    if not out.get("ok"):
+        res.violations.append(dict(case=case, what="large frames written while signals arrive: " + "; ".join(out.get("problems", ["?"]))[:400]))
+    else:
+        res.traces += 1
+        res.stat("runtime_signals_delivered", int(out.get("signals", 0)))
+    # (2)
+    execnet = ctx.execnet
+    case = dict(kind="runtime", probe="worker-stdin-is-not-the-frame-pipe")
+    res.count(("runtime", "stdin"))
+    group = execnet.Group()
+    try:
+        gw = group.makegateway("popen")
+        ch = gw.remote_exec("import os, threading\nseen = []\n"
+                            "t = threading.Thread(target=lambda: seen.append(os.read(0, 64)), daemon=True)\nt.start()\n"
+                            "for i in range(3):\n    channel.send(('echo', channel.receive()))\n"
+                            "t.join(2)\nchannel.send(('stdin', seen))\n")
+        got = []
+        for i in range(3):
+            ch.send(("item", i, b"z" * 100))
+            got.append(ch.receive(10))
+        tail = ch.receive(10)
+        if got != [("echo", ("item", i, b"z" * 100)) for i in range(3)] or tail != ("stdin", [b""]):
+            res.violations.append(dict(case=case, what="code reading the worker's stdin while frames flow: echoes %r, stdin read %r (expected the items back and EOF on stdin)"
+                                       % ([g[1][1] if isinstance(g, tuple) and len(g) > 1 and isinstance(g[1], tuple) else g for g in got], tail)))
+        else:
+            res.traces += 1
+    except Exception as e:  # noqa: BLE001
+        res.violations.append(dict(case=case, what="code reading the worker's stdin while frames flow: %r" % (e,)))
+    finally:
+        group.terminate(timeout=2.0)
 
 
 def search(ctx, prev):
